@@ -91,12 +91,14 @@ type SyncOpts struct {
 }
 
 type SyncResult struct {
-	Events     []vt.Ev
-	SOK, ROK   bool
-	SErr, RErr string
-	Hung       []string
-	After      model.Tree
-	Conn       *hstream.Conn
+	Events                   []vt.Ev
+	SOK, ROK                 bool
+	SErr, RErr               string
+	Hung                     []string
+	Quiesced                 bool
+	HasherCalls, NotifyCalls int
+	After                    model.Tree
+	Conn                     *hstream.Conn
 }
 
 var leakSeen sync.Map
@@ -321,6 +323,7 @@ func RunSync(caseNo int, srcDir, dstDir string, o SyncOpts) (*SyncResult, error)
 	timer := time.NewTicker(200 * time.Millisecond)
 	defer timer.Stop()
 	started := time.Now()
+	quiesced := false
 	sRet, rRet := false, false
 	for !(sRet && rRet) {
 		select {
@@ -334,6 +337,21 @@ func RunSync(caseNo int, srcDir, dstDir string, o SyncOpts) (*SyncResult, error)
 			}
 			if time.Since(conn.LastActivity()) < o.Timeout {
 				conn.Log(vt.Ev{"ev": "Stall"})
+			}
+			if !quiesced {
+				// nothing moves and a call has not returned: the environment now tears the
+				// stream down (network loss + cancellation), which is the precondition under
+				// which C04 demands termination; the calls get another full period to return
+				quiesced = true
+				res.Quiesced = true
+				conn.Log(vt.Ev{"ev": "Quiesce", "sReturned": sRet, "rReturned": rRet})
+				conn.Break()
+				conn.S.Cancel()
+				conn.R.Cancel()
+				scancel()
+				rcancel()
+				conn.Log(vt.Ev{"ev": "EnvTearDown"})
+				continue
 			}
 			// hang: confirm with two goroutine dumps
 			g1 := fsutilGoroutines()
@@ -357,10 +375,7 @@ func RunSync(caseNo int, srcDir, dstDir string, o SyncOpts) (*SyncResult, error)
 			for id := range g2 {
 				leakSeen.Store(id, true)
 			}
-			// force the stream down so the process can go on
-			conn.Break()
-			scancel()
-			rcancel()
+			// give up on this case so that the process can go on
 			conn.S.TearDown()
 			conn.R.TearDown()
 			sRet, rRet = true, true
@@ -397,6 +412,9 @@ func RunSync(caseNo int, srcDir, dstDir string, o SyncOpts) (*SyncResult, error)
 		return nil, err
 	}
 	res.After = after
+	cbMu.Lock()
+	res.HasherCalls, res.NotifyCalls = hasherN, notifyN
+	cbMu.Unlock()
 	// content ids of the view, by STAT index
 	stats := conn.StatLog()
 	vc := make([]string, len(stats))
